@@ -141,6 +141,10 @@ def one_point(cx, api, size, injector, point, preexisting, old, ref_new, ref_pla
     if preexisting:
         with open(dest, "wb") as f:
             f.write(old)
+        if idx % 4 == 1:
+            # the existing destination is read-only (the directory is writable, so it can still be replaced)
+            os.chmod(dest, 0o444)
+            cx.count("preexisting-destination-read-only")
     if injector == "fsize":
         st, msg = run_save(api, size, "B", dest, fsize=point)
     elif injector == "stale-tmp":
